@@ -159,16 +159,21 @@ def const_expr(n):
 
 
 def fold_sensitive(node):
-    """Does a GROUP BY / ORDER BY expression contain a folded (computed) constant? Whether it is the SAME node as a
-    target then depends on the computed VALUE, which the model does not have (see ASSUMPTIONS)."""
+    """Does a SELECT with GROUP BY / ORDER BY expression keys contain a folded (computed) constant in a key or a target?
+    Whether a key is the SAME node as a target then depends on the computed VALUE (abs(1.5) == 1.5), which the
+    compiler model does not have (see ASSUMPTIONS)."""
+    def computed(e):
+        return any(not isinstance(sub, (ast.Constant, ast.Placeholder)) and const_expr(sub)
+                   for sub in e.walk() if isinstance(sub, ast.Node))
     for n in node.walk():
         if isinstance(n, ast.Select):
             keys = [c for c in (n.group_by.columns if n.group_by else [])] + [o.column for o in (n.order_by or [])]
-            for k in keys:
-                if isinstance(k, ast.Node):
-                    for sub in k.walk():
-                        if not isinstance(sub, (ast.Constant, ast.Placeholder)) and const_expr(sub):
-                            return True
+            keys = [k for k in keys if isinstance(k, ast.Node)]
+            if not keys:
+                continue
+            targets = [] if isinstance(n.targets, ast.Asterisk) else [t.expression for t in n.targets]
+            if any(computed(e) for e in keys + targets):
+                return True
     return False
 
 
